@@ -27,7 +27,7 @@ def fkey(x):
     if x == 0:
         return 0
     k = int.from_bytes(struct.pack('>d', abs(x)), 'big')
-    return k if x > 0 else -k
+    return k if (x > 0 or x != x) else -k          # NaN is not negative (`nan < 0` is False)
 
 
 def _cls():
@@ -214,7 +214,7 @@ def run(ctx):
         evaluate_hist(ctx, hists, 'sample.len=4')
     # random histories with special values
     K = ['A:1', 'A:2', 'B:1', 'HP:0000001']
-    V = [0.0, 5e-324, 0.1, 1 / 3, 1.7976931348623157e308, -1.0, -5e-324, -0.0, 2.5, 1e-300]
+    V = [0.0, 5e-324, 0.1, 1 / 3, 1.7976931348623157e308, -1.0, -5e-324, -0.0, 2.5, 1e-300, float('inf'), float('nan'), float('-inf')]
     hists = []
     for _ in range(4000 if thorough else 800):
         ops = []
